@@ -20,6 +20,7 @@ fn main() {
         "C13" => dispatch::<props::c13::C13>(&args, &verif),
         "C14" => dispatch::<props::c14::C14>(&args, &verif),
         "C15" => dispatch::<props::c15::C15>(&args, &verif),
+        "C17" => dispatch::<props::c17::C17>(&args, &verif),
         "C18" => dispatch::<props::c18::C18>(&args, &verif),
         "C19" => dispatch::<props::c19::C19>(&args, &verif),
         _ => {
